@@ -23,9 +23,7 @@ M = [
  ("c03-ip4-set-ttl-protocol", "C03", [("layer_ip4.go", "func (p IP4) SetPayload(b []byte, protocol byte) IP4 {\n\tp[9] = protocol", "func (p IP4) SetPayload(b []byte, protocol byte) IP4 {\n\tp[8] = protocol")]),
  # ---- C04
  ("c04-no-sibling-offline", "C04", [("layer_frame.go", "if v.Addr.IP.Is4() && v.Addr.IP != host.Addr.IP {", "if v.Addr.IP.Is6() && v.Addr.IP != host.Addr.IP {")]),
- ("c04-offline-at-probe-deadline", "C04", [("session.go", "if e.Online && e.LastSeen.Before(offlineCutoff) {", "if e.Online && e.LastSeen.Before(probeCutoff) {")]),
  ("c04-ip6-router-gua-host", "C04", [("layer_frame.go", "(frame.SrcAddr.IP.IsGlobalUnicast() && !bytes.Equal(frame.SrcAddr.MAC, frame.Session.NICInfo.RouterAddr4.MAC))) {", "(frame.SrcAddr.IP.IsGlobalUnicast() && !bytes.Equal(frame.DstAddr.MAC, frame.Session.NICInfo.RouterAddr4.MAC))) {")]),
- ("c04-arp-ether-src", "C04", [("layer_frame.go", "addr := Addr{MAC: net.HardwareAddr(arp[8:14]), IP: srcIP}    // use arp src mac and ip for lookup", "addr := Addr{MAC: frame.SrcAddr.MAC, IP: srcIP}    // use arp src mac and ip for lookup")]),
  ("c04-purge-keeps-online-check", "C04", [("session.go", "if !e.Online && e.LastSeen.Before(deleteCutoff) {", "if e.LastSeen.Before(deleteCutoff) && e.Addr.IP.Is4() {")]),
  # ---- C05
  ("c05-unlink-off-by-one", "C05", [("mactable.go", "\t\t\tcopy(e.HostList[i:], e.HostList[i+1:])\n\t\t\te.HostList = e.HostList[:len(e.HostList)-1]", "\t\t\tcopy(e.HostList[i+1:], e.HostList[i+1:])\n\t\t\te.HostList = e.HostList[:len(e.HostList)-1]")]),
@@ -36,6 +34,44 @@ M = [
  ("c06-notify-keeps-dirty", "C06", [("session.go", "\tnotification := toNotification(frame.Host)\n\tframe.Host.dirty = false\n", "\tnotification := toNotification(frame.Host)\n\tframe.Host.dirty = !frame.Host.Online\n")]),
  ("c06-sibling-offline-silent", "C06", [("layer_frame.go", "\t\t\t\t\t\tv.Online = false\n\t\t\t\t\t\tv.dirty = true", "\t\t\t\t\t\tv.Online = false")]),
  ("c06-offline-after-online", "C06", [("session.go", "\t// notify previous IP4 is offline\n\tfor _, v := range offline {\n\t\th.makeOffline(v)\n\t}\n\n\t// lock row for update\n\tframe.Host.MACEntry.Row.Lock()\n\tnotification := toNotification(frame.Host)\n\tframe.Host.dirty = false\n\tframe.Host.MACEntry.Row.Unlock()\n\n\th.sendNotification(notification)", "\t// lock row for update\n\tframe.Host.MACEntry.Row.Lock()\n\tnotification := toNotification(frame.Host)\n\tframe.Host.dirty = false\n\tframe.Host.MACEntry.Row.Unlock()\n\n\th.sendNotification(notification)\n\n\t// notify previous IP4 is offline\n\tfor _, v := range offline {\n\t\th.makeOffline(v)\n\t}")]),
+ # ---- C04 (continued)
+ ("c04-offline-at-probe-deadline", "C04", [("session.go", "if e.Online && e.LastSeen.Before(offlineCutoff) {", "if e.Online && e.LastSeen.Before(probeCutoff) && offlineCutoff.Before(now) {")]),
+ ("c04-arp-ether-src", "C04", [("layer_frame.go", "addr := Addr{MAC: net.HardwareAddr(arp[8:14]), IP: srcIP}    // use arp src mac and ip for lookup", "addr := Addr{MAC: net.HardwareAddr(frame.SrcAddr.MAC), IP: srcIP}    // use arp src mac and ip for lookup")]),
+ # ---- C07
+ ("c07-ether-src-from-sender", "C07", [("layer_icmp.go", "ether = EncodeEther(ether, syscall.ETH_P_IPV6, h.NICInfo.HostAddr4.MAC, dstAddr.MAC)", "ether = EncodeEther(ether, syscall.ETH_P_IPV6, srcAddr.MAC, dstAddr.MAC)")]),
+ ("c07-hoplimit-unicast-only", "C07", [("layer_icmp.go", "if dstAddr.IP.IsLinkLocalUnicast() || dstAddr.IP.IsLinkLocalMulticast() {\n\t\thopLimit = 255", "if dstAddr.IP.IsLinkLocalUnicast() {\n\t\thopLimit = 255")]),
+ ("c07-icmp6-checksum-len16", "C07", [("layer_icmp.go", "binary.BigEndian.PutUint32(psh[32:36], uint32(len(b)))", "binary.BigEndian.PutUint16(psh[32:34], uint16(len(b)))")]),
+ ("c07-icmp4-checksum-after-append", "C07", [("layer_icmp.go", "\tICMP(p).SetChecksum(Checksum(p))\n\tif ip4, err = ip4.AppendPayload(p, syscall.IPPROTO_ICMP); err != nil {\n\t\treturn err\n\t}", "\tif ip4, err = ip4.AppendPayload(p, syscall.IPPROTO_ICMP); err != nil {\n\t\treturn err\n\t}\n\tICMP(p).SetChecksum(Checksum(p))")]),
+ ("c07-arp-probe-target-mac", "C07", [("session.go", "\tcopy(arp[18:18+6], target.MAC[:6])\n\tcopy(arp[24:24+4], target.IP.AsSlice())\n\t_, err = h.Conn.WriteTo", "\tcopy(arp[18:18+6], target.MAC[:6])\n\tcopy(arp[24:24+4], sender.IP.AsSlice())\n\t_, err = h.Conn.WriteTo")]),
+ # ---- C11
+ ("c11-select-ignores-concurrent-ack", "C11", [("handlers/dhcp4_spoofer/request.go", "\t\t\t(lease.State == StateDiscover && !h.available(lease, reqIP)) || // meanwhile acknowledged to another client or in use\n", "")]),
+ ("c11-available-allows-broadcast", "C11", [("handlers/dhcp4_spoofer/lease.go", "ip == subnet.LAN.Addr() || ip == subnet.broadcast ||", "ip == subnet.LAN.Addr() ||")]),
+ ("c11-available-allows-router", "C11", [("handlers/dhcp4_spoofer/lease.go", "ip == subnet.DefaultGW || ip == subnet.DHCPServer || ip == h.net1.DefaultGW {", "ip == subnet.DefaultGW || ip == subnet.DHCPServer {")]),
+ ("c11-free-leases-early", "C11", [("handlers/dhcp4_spoofer/lease.go", "if lease.State != StateFree && lease.DHCPExpiry.Before(now) {", "if lease.State != StateFree && lease.DHCPExpiry.Before(now.Add(lease.subnet.Duration)) {")]),
+ ("c11-available-skips-same-mac", "C11", [("handlers/dhcp4_spoofer/lease.go", "if v == lease || bytes.Equal(v.ClientID, lease.ClientID) {", "if v == lease || bytes.Equal(v.ClientID, lease.ClientID) || v.subnet != lease.subnet {")]),
+ # ---- C12
+ ("c12-select-stale-xid-acked", "C12", [("handlers/dhcp4_spoofer/request.go", "(lease.State == StateDiscover && (!bytes.Equal(lease.XID, p.XId()) || lease.IPOffer != reqIP)) ||", "(lease.State == StateDiscover && lease.IPOffer != reqIP) ||")]),
+ ("c12-renew-expired-acked", "C12", [("handlers/dhcp4_spoofer/request.go", "\t\t\tlease.Addr.IP != reqIP || !bytes.Equal(lease.Addr.MAC, p.CHAddr()) ||\n\t\t\tlease.DHCPExpiry.Before(time.Now()) {", "\t\t\tlease.Addr.IP != reqIP || !bytes.Equal(lease.Addr.MAC, p.CHAddr()) {")]),
+ ("c12-capture-keeps-old-subnet", "C12", [("handlers/dhcp4_spoofer/lease.go", "\t\tif lease.subnet.LAN == subnet.LAN &&\n\t\t\tbytes.Equal(lease.Addr.MAC, mac) {", "\t\tif (lease.subnet.LAN == subnet.LAN || lease.State == StateAllocated) &&\n\t\t\tbytes.Equal(lease.Addr.MAC, mac) {")]),
+ ("c12-reboot-other-subnet-acked", "C12", [("handlers/dhcp4_spoofer/request.go", "\t\t\tlease.Addr.IP != reqIP || !bytes.Equal(lease.Addr.MAC, p.CHAddr()) ||\n\t\t\t!subnet.LAN.Contains(lease.Addr.IP) {", "\t\t\tlease.Addr.IP != reqIP || !bytes.Equal(lease.Addr.MAC, p.CHAddr()) {")]),
+ # ---- C15
+ ("c15-single-fold", "C15", [("layer_ip4.go", "\ts = s>>16 + s&0xffff\n\ts = s + s>>16\n\treturn ^uint16(s)", "\ts = s>>16 + s&0xffff\n\treturn ^uint16(s)")]),
+ ("c15-odd-tail-inverted", "C15", [("layer_ip4.go", "if csumcv&1 == 0 {\n\t\ts += uint32(b[csumcv])", "if csumcv&1 == 1 {\n\t\ts += uint32(b[csumcv])")]),
+ ("c15-ip4-checksum-skips-options", "C15", [("layer_ip4.go", "\tcopy(psh[10:10+8], p[10+2:10+2+8]) // skip checksum filed in pos 10", "\tcopy(psh[10:10+8], p[10+2:10+2+8]) // skip checksum filed in pos 10\n\tpsh[1] &= 0xfc")]),
+ # ---- C16
+ ("c16-ether-copied", "C16", [("layer_frame.go", "\tframe.ether = p\n\tif err := frame.ether.IsValid(); err != nil {", "\tframe.ether = p\n\tif len(p) > 1500 {\n\t\tframe.ether = append(Ether(nil), p...)\n\t}\n\tif err := frame.ether.IsValid(); err != nil {")]),
+ ("c16-alloc-on-igmp", "C16", [("layer_frame.go", "\tcase syscall.IPPROTO_IGMP:\n\t\tframe.PayloadID = PayloadIGMP", "\tcase syscall.IPPROTO_IGMP:\n\t\tframe.DstAddr.MAC = CopyMAC(frame.DstAddr.MAC)\n\t\tframe.PayloadID = PayloadIGMP")]),
+ # ---- C18
+ ("c18-load-skips-subnet-check", "C18", [("handlers/dhcp4_spoofer/subnet_lease.go", "if !v.Addr.IP.IsValid() || !net1.LAN.Contains(v.Addr.IP) {", "if !v.Addr.IP.IsValid() {")]),
+ ("c18-load-accepts-empty-clientid", "C18", [("handlers/dhcp4_spoofer/subnet_lease.go", "if v.ClientID == nil || len(v.ClientID) == 0 {", "if v.ClientID == nil {")]),
+ ("c18-ack-not-saved-on-renew", "C18", [("handlers/dhcp4_spoofer/request.go", "\th.saveConfig(h.filename)\n\n\t// Update session with DHCP details - almost always a new host IP will be setup", "\tif operation == selecting {\n\t\th.saveConfig(h.filename)\n\t}\n\n\t// Update session with DHCP details - almost always a new host IP will be setup")]),
+ ("c18-save-includes-offers", "C18", [("handlers/dhcp4_spoofer/subnet_lease.go", "} else if v.State == StateDiscover && v.Addr.IP.IsValid() && v.DHCPExpiry.After(time.Now()) {", "} else if v.State == StateDiscover {")]),
+ ("c18-decline-not-saved", "C18", [("handlers/dhcp4_spoofer/declinerelease.go", "\tlease.IPOffer = netip.Addr{}\n\th.saveConfig(h.filename) // the binding must not come back after a restart\n", "\tlease.IPOffer = netip.Addr{}\n")]),
+ # ---- C20
+ ("c20-hex-upper-digit", "C20", [("fastlog/logging.go", "\tif x := value & 0x0f; x < 10 {\n\t\tl.appendByte(x + '0')\n\t} else {\n\t\tl.appendByte(x%10 + 'a')", "\tif x := value & 0x0f; x <= 10 {\n\t\tl.appendByte(x + '0')\n\t} else {\n\t\tl.appendByte(x%10 + 'a')")]),
+ ("c20-printint-power-of-ten", "C20", [("fastlog/logging.go", "\t\tfor n > 0 { // how many characters?\n\t\t\ti++\n\t\t\tn /= 10\n\t\t}", "\t\tfor n > 9 { // how many characters?\n\t\t\ti++\n\t\t\tn /= 10\n\t\t}\n\t\ti++\n\t\tif v == 1000000000 {\n\t\t\ti--\n\t\t}")]),
+ ("c20-uint16hex-nibble", "C20", [("fastlog/logging.go", "\tl.appendByte(hexAscii[(value>>8)&0x0f])\n\tl.appendByte(hexAscii[(value>>4)&0x0f])\n\tl.appendByte(hexAscii[value&0x0f])", "\tl.appendByte(hexAscii[(value>>8)&0x0f])\n\tl.appendByte(hexAscii[(value>>4)&0x07])\n\tl.appendByte(hexAscii[value&0x0f])")]),
+ ("c20-bytearray-guard", "C20", [("fastlog/logging.go", "if rem <= len(value)*3 { // each byte occupies 3 characters", "if rem < len(value)*3-3 { // each byte occupies 3 characters")]),
 ]
 
 if __name__ == '__main__':
